@@ -590,7 +590,8 @@ Finish(m) ==
                   [] "s" \in fl -> IF IsL(o) THEN (IF IsU(Clean(SumList(o.l))) THEN <<0>> ELSE Str(Clean(SumList(o.l)))) ELSE <<0>>
                   [] "j" \in fl -> IF IsL(o) THEN JoinNL(o.l) ELSE <<0>>
                   [] OTHER -> IF Printable(o) THEN Str(o) ELSE <<0>>
-    IN IF text = <<0>> \/ ~Printable(o) THEN Undef(m1, "implicit-output-outside-core")
+    IN IF ~(fl \subseteq {"H", "M", "m", "O", "o", "W", "s", "j"}) THEN Undef(m1, "flag-outside-core")
+       ELSE IF text = <<0>> \/ ~Printable(o) THEN Undef(m1, "implicit-output-outside-core")
        ELSE LET m2 == IF "W" \in fl /\ ~empty THEN Push(m1, o) ELSE m1      \* stack.append(output)
             IN [m2 EXCEPT !.status = "done", !.out = IF doprint THEN @ \o text \o NL ELSE @]
 
